@@ -248,7 +248,7 @@ Definition min_cost_flow_ll (e : list Z) (c : list (list (nat * Z))) : option (Z
 (* scan_delta / augment address capacities by node pairs; that is exact only for a hop whose two
    nodes are joined by exactly one arc.  The flagged run records whether any hop of any augmenting
    path joined a pair with a different number of arcs (in the graphs of emd_hat_impl.hpp: a hop
-   through the artificial node) or ended at a node of label "max" (unreachable). *)
+   through the artificial node) or ended at a node of label "max" (unreachable), or left a negative capacity behind. *)
 Definition pair_count (rf : list (list (nat * Z))) (u v : nat) : nat :=
   (length (filter (fun en => (fst en =? v)%nat) (nth u rf [])) +
    length (filter (fun en => (fst en =? u)%nat) (nth v rf [])))%nat.
@@ -260,6 +260,9 @@ Fixpoint walk_flag (fuel : nat) (rf : list (list (nat * Z))) (dd : list Z) (prev
   | S f => let from := nth to prev O in
            hop_flag rf dd from to || (if (from =? k)%nat then false else walk_flag f rf dd prev k from)
   end.
+(* no backward entry carries a negative capacity *)
+Definition caps_ok (rb : list (list (nat * Z * Z))) : bool :=
+  forallb (fun l => forallb (fun en => 0 <=? snd en) l) rb.
 Definition step_flag (st : mcf_state) : bool :=
   let e := m_e st in
   let nv := length e in
@@ -267,7 +270,17 @@ Definition step_flag (st : mcf_state) : bool :=
   if maxSupply =? 0 then false else
   match compute_shortest_path nv (m_d st) (m_prev st) k (m_rf st) (m_rb st) e with
   | None => false
-  | Some (d, prev, rf, rb, l) => if (l =? k)%nat then false else walk_flag nv rf d prev k l
+  | Some (d, prev, rf, rb, l) =>
+      if (l =? k)%nat then false else
+      walk_flag nv rf d prev k l ||
+      match scan_delta nv prev rb k l maxSupply with
+      | None => false
+      | Some delta =>
+          match augment nv prev k l delta e (m_x st) rb with
+          | None => false
+          | Some (_, _, rb') => negb (caps_ok rb')
+          end
+      end
   end.
 Fixpoint mcf_iter_f (k : nat) (st : mcf_state) (fl : bool) : mstep * bool :=
   match k with
